@@ -48,22 +48,11 @@ theorem eventDefs_visitFunction (f : Path) (lines : List Chars) (mn : List Strin
     eventDefs (visitFunction f lines mn name decos args ret body r) =
       match decos.find? isFixtureDecorator with
       | none => []
-      | some deco =>
-        match docstringOf body with
-        | some none => []
-        | some (some s) => [fixtureDef f lines name deco args ret body r (some s)]
-        | none => [fixtureDef f lines name deco args ret body r none] := by
+      | some deco => [fixtureDef f lines name deco args ret body r (docstringOf body)] := by
   unfold visitFunction
   cases decos.find? isFixtureDecorator with
   | none => simp [eventDefs_append, eventDefs_flatMap_strUsages, eventDefs_testEvents]
-  | some deco =>
-    simp only
-    cases docstringOf body with
-    | none => simp [eventDefs_append, eventDefs_flatMap_strUsages, eventDefs_testEvents, eventDefs_fixtureEvents]
-    | some inner =>
-      cases inner with
-      | none => simp [eventDefs_append, eventDefs_flatMap_strUsages, eventDefs]
-      | some s => simp [eventDefs_append, eventDefs_flatMap_strUsages, eventDefs_testEvents, eventDefs_fixtureEvents]
+  | some deco => simp [eventDefs_append, eventDefs_flatMap_strUsages, eventDefs_testEvents, eventDefs_fixtureEvents]
 
 /-- a function that is neither a fixture nor named `test_*` records only mark usages -/
 theorem C03_plain_function (f : Path) (lines : List Chars) (mn : List String) (name : String)
@@ -73,31 +62,24 @@ theorem C03_plain_function (f : Path) (lines : List Chars) (mn : List String) (n
   rw [eventDefs_visitFunction, hfx]
 
 /-- **C03 (a function is recorded as a fixture iff one of its decorators is a fixture decorator)**
-    — then exactly one definition is emitted for it (none if cleaning its docstring panics). -/
+    — and then exactly once. -/
 theorem C03_fixture_iff (f : Path) (lines : List Chars) (mn : List String) (name : String)
     (decos : List Expr) (args : Args) (ret : Option Expr) (body : List Stmt) (r : Range) :
-    (eventDefs (visitFunction f lines mn name decos args ret body r)).length ≤ 1 ∧
-    ((eventDefs (visitFunction f lines mn name decos args ret body r)) ≠ [] →
-      ∃ d ∈ decos, isFixtureDecorator d = true) ∧
-    ((∃ d ∈ decos, isFixtureDecorator d = true) → docstringOf body ≠ some none →
-      (eventDefs (visitFunction f lines mn name decos args ret body r)).length = 1) := by
+    ((∃ d ∈ decos, isFixtureDecorator d = true) →
+      (eventDefs (visitFunction f lines mn name decos args ret body r)).length = 1) ∧
+    ((¬ ∃ d ∈ decos, isFixtureDecorator d = true) →
+      eventDefs (visitFunction f lines mn name decos args ret body r) = []) := by
   rw [eventDefs_visitFunction]
   cases hfx : decos.find? isFixtureDecorator with
   | none =>
-    refine ⟨by simp, by simp, ?_⟩
-    rintro ⟨d, hd, hp⟩ _
+    refine ⟨?_, fun _ => rfl⟩
+    rintro ⟨d, hd, hp⟩
     have := List.find?_eq_none.mp hfx d hd
     simp [hp] at this
   | some deco =>
     have hmem := List.mem_of_find?_eq_some hfx
     have hp := List.find?_some hfx
-    simp only
-    cases hdoc : docstringOf body with
-    | none => exact ⟨by simp, fun _ => ⟨deco, hmem, hp⟩, fun _ _ => rfl⟩
-    | some inner =>
-      cases inner with
-      | none => exact ⟨by simp, by simp, fun _ h => absurd rfl h⟩
-      | some s => exact ⟨by simp, fun _ => ⟨deco, hmem, hp⟩, fun _ _ => rfl⟩
+    exact ⟨fun _ => rfl, fun h => absurd ⟨deco, hmem, hp⟩ h⟩
 
 /-- **C03 (the span recorded for a parameter is the parameter's name).** -/
 theorem C03_param_usage_span (f : Path) (a : Arg) :
@@ -206,13 +188,9 @@ theorem C03_deps (f : Path) (lines : List Chars) (mn : List String) (name : Stri
   cases hfx : decos.find? isFixtureDecorator with
   | none => simp [hfx] at h
   | some deco =>
-    simp only [hfx] at h
-    cases hdoc : docstringOf body with
-    | none => simp [hdoc] at h; subst h; simp [fixtureDef]
-    | some inner =>
-      cases inner with
-      | none => simp [hdoc] at h
-      | some s => simp [hdoc] at h; subst h; simp [fixtureDef]
+    simp [hfx] at h
+    subst h
+    simp [fixtureDef]
 
 /-- **C03 (test functions request every parameter but `self`).** -/
 theorem C03_test_usages (f : Path) (mn : List String) (name : String) (args : Args) (body : List Stmt) (r : Range)
